@@ -10,6 +10,7 @@ import dec_gen  # noqa: E402
 import obj_gen  # noqa: E402
 import st_gen  # noqa: E402
 import val_gen  # noqa: E402
+import vld_gen  # noqa: E402
 import tlcdump  # noqa: E402
 import hashlib  # noqa: E402
 import json  # noqa: E402
@@ -150,6 +151,25 @@ ST_MC = {'kind': 'mc', 'tree': True, 'name': 'status', 'module': 'MC_Status', 'c
          'cfg': {'quick': 'MC_Status_quick.cfg', 'thorough': 'MC_Status_thorough.cfg'}, 'extra': ST_PROBE,
          'invariants': ['InvC16']}
 ST_RANDOM = {'kind': 'gen', 'name': 'randomstatus', 'gen': st_random, 'comp': 'st', 'trace': 'TraceStatus'}
+
+
+# ------------------------------------------------------------------ validation
+def _dec_frames_proxy(tier, seed, path):
+    return dec_frames(tier, seed, path)
+
+
+def vld_random(tier, seed, path):
+    return vld_gen.write(path, vld_gen.buffers(seed + 41, 60 if tier == 'quick' else 1500))
+
+
+def nt_vld(c):
+    return len(c.get('ops', [])) >= 1
+
+
+VLD_MC = {'kind': 'mc', 'name': 'views', 'module': 'MC_Views', 'comp': 'vld', 'trace': 'TraceValid', 'variant': 'asan',
+          'cfg': {'quick': 'MC_Views.cfg', 'thorough': 'MC_Views.cfg'}, 'invariants': ['InvC03']}
+VLD_RANDOM = {'kind': 'gen', 'name': 'randombuffers', 'gen': vld_random, 'comp': 'vld', 'trace': 'TraceValid', 'variant': 'asan'}
+VLD_DEC = {'kind': 'gen', 'name': 'decodedframes', 'gen': _dec_frames_proxy, 'comp': 'dec', 'trace': 'TraceDec', 'variant': 'asan'}
 
 
 # ------------------------------------------------------------------ values
@@ -325,4 +345,14 @@ PROPS = {
                     'stores with all payload kinds. Monitor: store semantics, equality reflexive / symmetric / negation of != / '
                     'field-by-field for non-empty payloads. Non-trivial = distinct episodes containing a copy, move or assignment.',
             'assumptions': COMMON_ASSUMPTIONS + ['moved-from objects are unspecified and only used as assignment targets']},
+    'C03': {'level': 'model_checking', 'stages': [VLD_MC, VLD_RANDOM], 'nontrivial_case': nt_vld,
+            'rule': 'MC_Views: the finite abstract domain of the validators (every size 0..header+8 and header+40, every inner '
+                    'length field at 0, 1, available-1, available, available+1, maximum, error-flag / enumerated-field classes) per '
+                    'payload kind: the specified validity rule implies in-bounds views (InvC03); every buffer given to the real '
+                    'isValidPayload and, if accepted, to the constructor and every const accessor (ASan + UBSan build, input ending '
+                    'at an inaccessible page, every reported view touched byte by byte); plus seeded random / near-valid / mutated '
+                    'buffers and message-level buffers for Packet::isValidPacket + Packet(msgType, data, size). Monitor: accepted '
+                    '=> header present, inner structure consistent, every reported view inside the payload. Non-trivial = distinct '
+                    'episodes (each holds validity checks).',
+            'assumptions': COMMON_ASSUMPTIONS + ['an out-of-bounds read inside the library\'s own vectors is observed by ASan (crash event), not by TLC']},
 }
